@@ -514,6 +514,18 @@ func (g *FuncGen) evalCall(n *Node, env *Env) (Val, error) {
 			t = fmt.Sprintf("(s_arr %s)", t)
 		}
 		return Val{fmt.Sprintf("(< %s %s)", t, g.entryAllocFor(env)), tBool}, nil
+	case "arr": // arr(s): the backing array of slice s (a reference; 0 for a nil slice)
+		a, err := args()
+		if err != nil {
+			return Val{}, err
+		}
+		if len(a) != 1 {
+			return Val{}, fmt.Errorf("arr takes one argument")
+		}
+		if _, ok := a[0].Type.Underlying().(*types.Slice); !ok {
+			return Val{}, fmt.Errorf("arr needs a slice")
+		}
+		return Val{fmt.Sprintf("(s_arr %s)", a[0].Term), tInt}, nil
 	case "pow2": // 2^n for 0 <= n <= 62 (0 elsewhere)
 		a, err := args()
 		if err != nil {
